@@ -1230,7 +1230,197 @@ def check_C19(chk):
                         'isolated = a fresh process per job; outputs are compared as printed values (first 64 outputs)']
 
 
-CHECKS = {'C19': check_C19, 'C04': check_C04, 'C14': check_C14, 'C16': check_C16, 'C20': check_C20, 'C07': check_C07, 'C13': check_C13, 'C12': check_C12, 'C17': check_C17, 'C18': check_C18, 'C15': check_C15, 'C09': check_C09, 'C08': check_C08, 'C11': check_C11, 'C10': check_C10, 'C01': check_C01, 'C02': check_C02, 'C03': check_C03}
+def check_C06(chk):
+    import subprocess, syscheck, corpus
+    q = chk.tier == 'quick'
+    chk.rule = ('design: the phase automaton JaqSys (startup / load / exec; classes of paths runtime, load, input, tz, other; no action for write-opens, other paths, load files after execution '
+                'began, tz unless the filter is a time filter, sockets, processes, file-system changes) is model-checked for type, phase order and non-vacuity. library: every native filter and '
+                'definition of the current tree (discovered at run time) x 22 honeypot arguments (paths, URLs, shell commands, path traversals, zone names, DOCTYPE/ENTITY, YAML tags) as input and as '
+                'every argument, the manual`s filters, time filters with attacker formats, every decoder on adversarial documents - all compiled first, then run in one traced process after a '
+                'marker system call; every system call after the marker is an event validated by TLC (Trace_Sys) against JaqSys. binary: 30 command-line scenarios (several inputs, -f, modules and '
+                'data imports, --rawfile/--slurpfile, honeypot file names as --arg/--args/--argjson/environment/stdin values incl. non-UTF-8 names, input/inputs, decoders, in-place with failing '
+                'runs) traced and validated the same way, with the allowed files computed from the command line; the scratch tree must hold the same files afterwards.')
+    res = vlib.run_tlc('MC_Sys', 'SPECIFICATION Spec\nINVARIANTS TypeOK\nPROPERTY PhaseOrder\nCHECK_DEADLOCK FALSE\n', 'C06-design', workers=4)
+    chk.add_tlc(res)
+    for inv in res['invariant_violated']:
+        chk.violation(f'spec:sys:{inv}', f'TLC: {inv} of JaqSys violated (see {res["out"]})', {'tlc_out': res['out']})
+    res2 = vlib.run_tlc('MC_Sys', 'SPECIFICATION Spec\nINVARIANTS CanReadAll\nCHECK_DEADLOCK FALSE\n', 'C06-nonvacuity', workers=4)
+    if 'CanReadAll' not in res2['invariant_violated']:
+        raise ToolError('JaqSys does not admit the intended run (load file, input, time-zone database): the automaton is vacuous')
+    vlib.build_harness()
+    vlib.build_jaq()
+    base = os.path.join(W, 'c06')
+    shutil.rmtree(base, ignore_errors=True)
+    hp = os.path.join(base, 'honeypot')
+    os.makedirs(hp)
+    open(os.path.join(hp, 'secret.txt'), 'w').write('"s3cret"\n')
+    open(os.path.join(hp, 'cmd.sh'), 'w').write('touch pwned\n')
+    S = lambda s: {'t': 'str', 'c': [ord(c) for c in s]}
+    sec = os.path.join(hp, 'secret.txt')
+    honey = [sec, 'file://' + sec, 'http://127.0.0.1:9/x', f'; touch {hp}/pwned1', f'$(touch {hp}/pwned2)', f'| touch {hp}/pwned3', f'`touch {hp}/pwned4`', '../' * 12 + sec.lstrip('/'),
+             '/etc/passwd', '~/.ssh/id_rsa', '../../../etc/hostname', 'Europe/Vienna', '%Q %Z', f'<!DOCTYPE r [<!ENTITY e SYSTEM "file://{sec}">]><r>&e;</r>',
+             f'<r xmlns:xi="http://www.w3.org/2001/XInclude"><xi:include href="{sec}"/></r>', f'!include {sec}', f"!!python/object/apply:os.system ['touch {hp}/pwned5']",
+             f'a: &a {{f: {sec}}}\nb: {{<<: *a}}', f'include "{sec}"; .', f'import "{sec}" as $x; $x', '-', '/dev/tcp/127.0.0.1/9']
+    hvals = [S(h) for h in honey] + [{'t': 'null'}, {'t': 'int', 'n': 0}]
+    names = subprocess.run([vlib.HARNESS, 'sys', 'names'], stdout=subprocess.PIPE, text=True).stdout.split()
+    skipn = {'halt/0', 'halt/1', 'halt_error/0', 'halt_error/1', 'repl/0', 'repl/1'}
+    cases = []
+    hsel = hvals if not q else hvals[:3] + hvals[8:14] + hvals[15:17]
+    for na in names:
+        if na in skipn:
+            continue
+        n, a = na.rsplit('/', 1)
+        call = n + ('(' + '; '.join(['$h'] * int(a)) + ')' if int(a) else '')
+        for i, h in enumerate(hsel):
+            cases.append({'id': f'{na}#{i}', 'text': f'try limit(4; $h | {call}) catch .', 'vars': [['h', h]], 'cap': 6})
+    tf = ['$h | strptime("%F %Q")', '"2000-01-01 " + $h | strptime("%F %Q")', '"1 " + $h | strptime("%s %Q")', '0 | strftime($h)', '0 | strflocaltime($h)', '0 | strflocaltime("%Z %Q")', '0 | localtime', 'now | localtime | mktime',
+          '$h | fromdate', '0 | todate', '$h | strptime($h)', '[0,0,0,0,0,0] | strftime($h)']
+    for t in tf:
+        for i, h in enumerate(hvals[:20]):
+            cases.append({'id': f'time:{t}#{i}', 'text': f'try ({t}) catch .', 'vars': [['h', h]]})
+    for dec in ('fromyaml', 'fromxml', 'fromtoml', 'fromcsv', 'fromtsv', 'fromjson', 'tobytes | fromcbor', '@base64d', 'fromxml | toxml', 'fromyaml | toyaml', 'fromxml | tojson'):
+        for i, h in enumerate(hvals[:22]):
+            cases.append({'id': f'dec:{dec}#{i}', 'text': f'try limit(8; $h | {dec}) catch .', 'vars': [['h', h]]})
+    skipc = re.compile(r'\b(halt|halt_error|repl)\b')
+    for e in corpus.examples()[:(150 if q else 600)]:
+        if not skipc.search(e['text']):
+            cases.append({'id': 'manual:' + e['id'], 'text': e['text'], 'vars': []})
+    cp, op, lg = os.path.join(base, 'cases.ndjson'), os.path.join(base, 'out.ndjson'), os.path.join(base, 'strace.log')
+    with open(cp, 'w') as f:
+        for c in cases:
+            f.write(json.dumps(c) + '\n')
+    open(op, 'w').close()
+    start, hangs, logs = 0, [], []
+    while start < len(cases):
+        rc, _, err = syscheck.strace([vlib.HARNESS, 'sys', 'run', cp, op, str(start)], lg, cwd=base, timeout=900 if q else 3600)
+        logs.append(open(lg, errors='replace').read())
+        done = sum(1 for _ in open(op))
+        if done >= len(cases):
+            break
+        # the case after the last finished one hung or killed the process: it is data, continue behind it
+        hangs.append((cases[done]['id'], rc))
+        with open(op, 'a') as f:
+            f.write(json.dumps({'id': cases[done]['id'], 'items': 0, 'end': 'hang' if rc is None else f'died({rc})'}) + '\n')
+        start = done + 1
+    tr = os.path.join(W, 'trace-C06.ndjson')
+    nev = 0
+    with open(tr, 'w') as f:
+        for k, text in enumerate(logs):
+            evs = syscheck.events(text, lambda p: syscheck.base_class(p) or 'other', cwd=base)
+            f.write(json.dumps({'ev': 'header', 'id': f'library-driver-{k}', 'tz': False}) + '\n')
+            live = False
+            for e in evs:
+                if e['ev'] == 'marker':
+                    if e['m'] == 'exec':
+                        live = True
+                        f.write(json.dumps({'ev': 'marker', 'm': 'exec', 'tz': False, 'id': 'exec'}) + '\n')
+                    elif e['m'].startswith('case/'):
+                        c = cases[int(e['m'][5:])]
+                        f.write(json.dumps({'ev': 'marker', 'm': 'case', 'tz': bool(syscheck.TZ_FILTERS.search(c['text'])), 'id': c['id'] + ' :: ' + c['text'][:120]}) + '\n')
+                    continue
+                if not live or e['ev'] == 'exit':
+                    continue
+                if e['ev'] == 'open' and e.get('failed') and e['cls'] in ('runtime', 'tz'):
+                    continue
+                f.write(json.dumps(e) + '\n')
+                nev += 1
+        # ---- the real binary ----
+        wd = os.path.join(base, 'w')
+        os.makedirs(os.path.join(wd, 'lib'))
+        files = {'in1.json': b'1 {"file":"secret.txt","cmd":"touch pwned"}\n', 'in2.json': b'[2]\n', 'prog.jq': b'include "m"; import "d" as $d; f, $d\n', 'lib/m.jq': b'def f: "m";\n', 'lib/d.json': b'[1]\n',
+                 'raw.txt': b'raw\n', 'slurp.json': b'1 2\n', 'secret.txt': b'"s3cret"\n', b'note\xff.txt': b'{"secret":42}\n', '-n': b'3\n', 'a b': b'4\n', 'doc.yaml': (f'a: !include {sec}\nb: &x [1]\nc: *x\n').encode(),
+                 'doc.xml': f'<?xml version="1.0"?><!DOCTYPE r [<!ENTITY e SYSTEM "file://{sec}">]><r a="secret.txt">&amp;<?pi secret.txt?></r>'.encode(), 'doc.toml': b'a = "secret.txt"\n', 'doc.csv': b'secret.txt,1\n',
+                 'ip1.json': b'1 2\n', 'ip2.json': b'3 oops\n'}
+        for n, c in files.items():
+            pth = os.path.join(wd.encode(), n if isinstance(n, bytes) else n.encode())
+            open(pth, 'wb').write(c)
+        J = vlib.JAQ
+        A = lambda *ns: {os.path.join(wd.encode(), n if isinstance(n, bytes) else n.encode()) for n in ns}
+        sc = [  # (id, args, load files, input files, tz, stdin)
+            ('two-inputs', ['.', 'in1.json', 'in2.json'], A(), A('in1.json', 'in2.json'), False, None),
+            ('from-file-modules', ['-L', 'lib', '-f', 'prog.jq', 'in1.json'], A('prog.jq', 'lib/m.jq', 'lib/d.json'), A('in1.json'), False, None),
+            ('inline-modules', ['-L', 'lib', 'include "m"; import "d" as $d; f, $d', 'in1.json', 'in2.json'], A('lib/m.jq', 'lib/d.json'), A('in1.json', 'in2.json'), False, None),
+            ('rawfile-slurpfile', ['--rawfile', 'r', 'raw.txt', '--slurpfile', 's', 'slurp.json', '$r, $s', 'in1.json'], A('raw.txt', 'slurp.json'), A('in1.json'), False, None),
+            ('arg-names-file', ['-n', '--arg', 'x', 'secret.txt', '$x, ($x | tojson | fromjson), $__prog_args'], A(), A(), False, None),
+            ('argjson-names-file', ['-n', '--argjson', 'x', '"secret.txt"', '$x'], A(), A(), False, None),
+            ('args-name-files', ['-n', '$ARGS', '--args', 'secret.txt', b'note\xff.txt', 'a b', '-n'], A(), A(), False, None),
+            ('args-non-utf8', ['-c', '[., $ARGS.positional]', '--args', 'a', b'note\xff.txt', 'b'], A(), A(), False, b'null'),
+            ('jsonargs', ['-n', '$ARGS', '--jsonargs', '"secret.txt"', '{"f":"secret.txt"}'], A(), A(), False, None),
+            ('data-names-file', ['.[1]? | .file, .cmd | tostring | ltrimstr("x")', 'in1.json'], A(), A('in1.json'), False, None),
+            ('stdin-names-file', ['.file, (.file | @sh, @uri, @json), input_filename'], A(), A(), False, b'{"file":"secret.txt"}'),
+            ('env-names-file', ['-n', '$ENV.SECRET, env.SECRET'], A(), A(), False, None),
+            ('input-inputs', ['-n', 'input, [inputs]', 'in1.json', 'in2.json'], A(), A('in1.json', 'in2.json'), False, None),
+            ('first-inputs', ['-n', 'first(inputs)', 'in1.json', 'in2.json'], A(), A('in1.json', 'in2.json'), False, None),
+            ('slurp', ['-s', '.', 'in1.json', 'in2.json'], A(), A('in1.json', 'in2.json'), False, None),
+            ('raw-input', ['-R', '.', 'raw.txt'], A(), A('raw.txt'), False, None),
+            ('yaml-doc', ['--from', 'yaml', '.', 'doc.yaml'], A(), A('doc.yaml'), False, None),
+            ('xml-doc', ['--from', 'xml', '.', 'doc.xml'], A(), A('doc.xml'), False, None),
+            ('toml-doc', ['--from', 'toml', '.a', 'doc.toml'], A(), A('doc.toml'), False, None),
+            ('csv-doc', ['--from', 'csv', '.[0]', 'doc.csv'], A(), A('doc.csv'), False, None),
+            ('to-formats', ['--to', 'yaml', '.', 'in2.json'], A(), A('in2.json'), False, None),
+            ('localtime', ['-n', '0 | localtime, strflocaltime("%Z")'], A(), A(), True, None),
+            ('zone-name', ['-n', '"1 Europe/Vienna" | strptime("%s %Q")'], A(), A(), True, None),
+            ('zone-traversal', ['-n', 'try ("1 ../../../etc/hostname" | strptime("%s %Q")) catch "rejected"'], A(), A(), True, None),
+            ('gmtime-no-tz', ['-n', '0 | gmtime, todate'], A(), A(), False, None),
+            ('error-run', ['.[] | error', 'in2.json'], A(), A('in2.json'), False, None),
+            ('file-named-dash-n', ['.', './-n', 'a b'], A(), A('-n', 'a b'), False, None),
+        ]
+        inplace = [('in-place-ok', ['-i', '.+1', 'ip1.json']), ('in-place-parse-error', ['-i', '.', 'ip2.json']), ('in-place-runtime-error', ['-i', 'if . == 2 then error else . end', 'ip1.json'])]
+        env = dict(os.environ, SECRET='secret.txt', HOME=wd)
+        def snapshot():
+            out = set()
+            for root, ds, fs in os.walk(base.encode()):
+                out |= {os.path.join(root, x) for x in fs + ds}
+            return out
+        for sid, args, load, inp, tz, stdin in sc:
+            before = snapshot()
+            lg2 = os.path.join(base, 'strace2.log')
+            rc, out, err = syscheck.strace([J] + args, lg2, cwd=wd, env=env, stdin=stdin, timeout=120)
+            def cls(p, load=load, inp=inp):
+                return 'load' if p in load else 'input' if p in inp else (syscheck.base_class(p) or 'other')
+            evs = syscheck.events(open(lg2, errors='replace').read(), cls, cwd=wd)
+            f.write(json.dumps({'ev': 'header', 'id': f'jaq {" ".join(a.decode("utf-8", "backslashreplace") if isinstance(a, bytes) else a for a in args)}', 'tz': tz}) + '\n')
+            for e in evs:
+                if e['ev'] == 'marker' or (e['ev'] == 'open' and e.get('failed') and e['cls'] in ('runtime', 'tz')):
+                    continue
+                f.write(json.dumps(e) + '\n')
+                nev += 1
+            for x in sorted(snapshot() ^ before):
+                if not x.endswith(b'strace2.log'):
+                    f.write(json.dumps({'ev': 'bad', 'what': 'fsmod', 'call': 'file appeared or vanished: ' + x.decode('utf-8', 'backslashreplace')}) + '\n')
+            chk.traces += 1
+        for sid, args in inplace:
+            before = snapshot()
+            subprocess.run([J] + args, cwd=wd, env=env, stdout=subprocess.PIPE, stderr=subprocess.PIPE)
+            f.write(json.dumps({'ev': 'header', 'id': f'jaq {" ".join(args)}', 'tz': False}) + '\n')
+            for x in sorted(snapshot() ^ before):
+                f.write(json.dumps({'ev': 'bad', 'what': 'fsmod', 'call': 'file appeared or vanished: ' + x.decode('utf-8', 'backslashreplace')}) + '\n')
+            chk.traces += 1
+    # honeypot must be untouched
+    left = sorted(os.listdir(hp))
+    if left != ['cmd.sh', 'secret.txt']:
+        chk.violation('honeypot:' + ','.join(left), f'the honeypot directory was changed: {left}', {'files': left})
+    res = vlib.run_tlc('Trace_Sys', 'SPECIFICATION Spec\nINVARIANTS TypeOK Report\nCHECK_DEADLOCK FALSE\n', 'C06-trace', workers=1, timeout=3000, env_extra={'TRACE': tr}, xss='1g', heap='4g')
+    chk.add_tlc(res)
+    if not list(vlib.tuple_lines(res['out'], 'RESULT')):
+        raise ToolError(f'Trace_Sys did not consume the trace: {res["out"]}')
+    for l in vlib.tagged_lines(res['out'], 'REJECTED'):
+        r = json.loads(l)
+        e = r['ev']
+        what = (f"opened {'for writing ' if e.get('w') else ''}{e.get('path')} (class {e.get('cls')}, phase {r['phase']})" if e['ev'] == 'open' else f"{e.get('what')}: {e.get('call')}")
+        who = r['scenario'] + (' / ' + r['case'] if r['case'] and r['case'] != 'exec' else '')
+        key = f"{who.split(' :: ')[0]}:{e.get('cls') or e.get('what')}:{(e.get('path') or e.get('call') or '')[:80]}"
+        chk.violation(key, f'{who}: {what}', r)
+    chk.traces += len(cases)
+    chk.evaluations += nev + len(cases)
+    chk.extra.update({'library_cases': len(cases), 'filters_discovered': len(names), 'events_validated': nev, 'cli_scenarios': len(sc) + len(inplace), 'hung_or_died_cases': hangs[:20]})
+    chk.assumptions += ['system calls are the complete interface to files, network and processes (strace -f; no io_uring: such a call would not be in the allowed set)',
+                        'the classes of paths are computed by the driver from the command line; stat / access of a path is not counted as reading it',
+                        'the execution phase of the library driver starts at a marker system call after all cases have been compiled',
+                        'the documented exceptions `repl` and `halt` are not run; --in-place is checked here only for leftover files (the call sequence is C18`s)']
+
+
+CHECKS = {'C06': check_C06, 'C19': check_C19, 'C04': check_C04, 'C14': check_C14, 'C16': check_C16, 'C20': check_C20, 'C07': check_C07, 'C13': check_C13, 'C12': check_C12, 'C17': check_C17, 'C18': check_C18, 'C15': check_C15, 'C09': check_C09, 'C08': check_C08, 'C11': check_C11, 'C10': check_C10, 'C01': check_C01, 'C02': check_C02, 'C03': check_C03}
 
 
 def main():
